@@ -50,7 +50,8 @@ def run(chk):
     files = [s for (m, s) in streams.snippet_cases() if m == 'file']
     la = R.impl([R.case_line('file', s) for s in files])
     good = [s for s, l in zip(files, la) if outcome(l)[0] == 'ok']
-    damaged = [s for s, l in zip(files + [streams.mutate(rng, s, 2) for s in files], la + R.impl([R.case_line('file', streams.mutate(rng, s, 2)) for s in files])) if outcome(l)[0] == 'err'][:400]
+    mutated = [streams.mutate(rng, s, 2) for s in files]
+    damaged = [s for s, l in zip(files + mutated, la + R.impl([R.case_line('file', s) for s in mutated])) if outcome(l)[0] == 'err'][:400]
     rng = random.Random(chk.seed)
     n = 300 if chk.tier == 'quick' else 5000
     dirs = [gen_dir(rng, good, damaged, chk.tier) for _ in range(n)]
